@@ -105,7 +105,7 @@ class _FillLen:
         yield 'following-keyword-untouched', rest == ['imp:n', '1']
 
 
-@contract(CellConversion.develop_lattice, props=['C17', 'C06'], name='CellConversion.develop_lattice[dimensions]', status='B')
+@contract(CellConversion.develop_lattice, props=['C17', 'C06', 'C07'], name='CellConversion.develop_lattice[dimensions]', status='B')
 class _LatDims:
     """Ranges whose number of non-trivial dimensions differs from the number of plane pairs of the lattice cell are
     rejected (LatticeError) -- checked through the real converter on small lattice decks."""
